@@ -452,6 +452,7 @@ package leveldb
 
 //@ count storage.Storage.SetMeta
 //@ count storage.Storage.Remove
+//@ count io.Closer.Close
 //@ count storage.Syncer.Sync
 //@ count (*DB).compactionCommit
 //@ count (*session).recordCommited
@@ -683,11 +684,16 @@ package leveldb
 // (db.journalWriter) are switched together: no return leaves the records going to the new file while syncs still go
 // to the old one (F29: a failed Close of the old journal did; later writes were acknowledged as synced and were not).
 //@ ghost var gHalfSwitched bool
+// C07 / C18: a rotation that is refused because a frozen buffer is still waiting (errHasFrozenMem; rotateMem tries
+// again) has already created the next journal file: it closes and removes that file and gives the number back.
+// Left behind, the file stayed open and unwritten - the storage did not come back after Close (F40).
 //@ func (*DB).newMem
-//@   props C04 C01 C08
+//@   props C04 C01 C08 C07 C18
 //@   safety off
 //@   at entry
 //@     ghost gHalfSwitched = false
+//@   at before stmt return nil, errHasFrozenMem
+//@     assert [C07,C18:a-refused-rotation-leaves-no-journal-file-behind] calls("storage.Storage.Remove") == old(calls("storage.Storage.Remove")) + 1 && calls("io.Closer.Close") == old(calls("io.Closer.Close")) + 1
 //@   at call (*Writer).Reset#1
 //@     ghost gHalfSwitched = true
 //@   at after stmt db.journalWriter = w
